@@ -1,7 +1,7 @@
 (* Dispatch.v — model of typed dispatch and of `new` (property C16).
 
    Mirrors, method by method and in the order of the tests of the Go code (after the fix: commits
-   1fb8091, dd98fbb, aca4c2b, 4aef5f6, cf4b5b0, 646ba49, and faae116 of the lattice owner):
+   1fb8091, dd98fbb, aca4c2b, 4aef5f6, cf4b5b0, 646ba49, and faae116, bddebb3 of the lattice owner):
      internal/function.go   dispatchBuilder (:214-312), createDispatch (:190), buildFunction (:126),
                             functionBuilder.Resolve (:152), goFunction.Call (:318)
      types/callabletype.go  CallableType.CallableWith (:118)
@@ -486,12 +486,23 @@ Inductive pval :=
 Inductive pty :=
 | PAny | PUndef | PBoolean | PNumeric | PFloat
 | PInteger (lo hi : Z)            (* min_int64 / max_int64 = unbounded *)
-| PString (lo hi : Z)             (* size in bytes *)
+| PString (lo hi : Z)             (* size in characters *)
 | PEnum (vs : list str)
+| PEnumCI (vs : list str)         (* case-insensitive Enum; the values are stored lower-cased (enumtype.go NewEnumType) *)
 | POptional (t : pty) | PVariant (ts : list pty) | PArray (e : pty) (lo hi : Z)
 | PRef (name : str).              (* TypeReference: a local alias, resolved by createDispatch, or unresolved *)
 
 Definition in_range (lo hi z : Z) : bool := (lo <=? z) && (z <=? hi).
+
+(* utf8.RuneCountInString of a VALID UTF-8 string (stringtype.go:205, after fix bddebb3): the bytes that
+   are not continuation bytes 0x80..0xBF.  The harness sends only valid UTF-8. *)
+Definition prune_count (s : str) : Z :=
+  Z.of_nat (length (filter (fun b => (N.ltb b 128 || N.leb 192 b)%bool) s)).
+
+(* strings.ToLower on ASCII letters (enumtype.go:176, booleantype.go:55).  For the value sets used here
+   (false true yes no y n) no non-ASCII rune lower-cases to one of their letters, so this is exact. *)
+Definition lower_byte (b : N) : N := if (N.leb 65 b && N.leb b 90)%bool then (b + 32)%N else b.
+Definition lower_str (s : str) : str := map lower_byte s.
 
 (* IsInstance of the fragment types (integertype.go:240, stringtype.go, enumtype.go:163,
    optionaltype.go:100, varianttype.go:100, arraytype.go:193, typereferencetype.go:78) *)
@@ -503,11 +514,15 @@ Fixpoint pinst (t : pty) (v : pval) {struct t} : bool :=
   | PNumeric => match v with VInt _ | VFloat _ => true | _ => false end
   | PFloat => match v with VFloat _ => true | _ => false end
   | PInteger lo hi => match v with VInt z => in_range lo hi z | _ => false end
-  | PString lo hi => match v with VStr s => in_range lo hi (Z.of_nat (length s)) | _ => false end
+  | PString lo hi => match v with VStr s => in_range lo hi (prune_count s) | _ => false end
   | PEnum vs => match v with
                 | VStr s => match vs with [] => true | _ => existsb (str_eqb s) vs end
                 | _ => false
                 end
+  | PEnumCI vs => match v with
+                  | VStr s => match vs with [] => true | _ => existsb (str_eqb (lower_str s)) vs end
+                  | _ => false
+                  end
   | POptional t' => match v with VUndef => true | _ => pinst t' v end
   | PVariant ts => (fix any (l : list pty) : bool :=
                       match l with [] => false | t' :: r => pinst t' v || any r end) ts
@@ -560,6 +575,7 @@ Definition pname (t : pty) : str :=
   | PInteger _ _ => [73;110;116;101;103;101;114]%N
   | PString _ _ => [83;116;114;105;110;103]%N
   | PEnum _ => [69;110;117;109]%N
+  | PEnumCI _ => [69;110;117;109]%N
   | POptional _ => [79;112;116;105;111;110;97;108]%N
   | PVariant _ => [86;97;114;105;97;110;116]%N
   | PArray _ _ _ => [65;114;114;97;121]%N
@@ -580,3 +596,55 @@ Definition core_ctor_names : list str :=
     [83;101;110;115;105;116;105;118;101] ]%N.
 
 Definition has_core_ctor (n : str) : bool := existsb (str_eqb n) core_ctor_names.
+
+(* ================================================================================================
+   A core constructor modelled end to end: Boolean (booleantype.go:36-62).
+   newGoConstructor(`Boolean`, Param(Variant[Integer, Float, Boolean, Enum['false','true','yes','no','y','n',true]]),
+   Function(body)).
+   ================================================================================================ *)
+Definition boolean_name : str := [66;111;111;108;101;97;110]%N.
+Definition s_false : str := [102;97;108;115;101]%N.
+Definition s_true : str := [116;114;117;101]%N.
+Definition s_yes : str := [121;101;115]%N.
+Definition s_no : str := [110;111]%N.
+Definition s_y : str := [121]%N.
+Definition s_n : str := [110]%N.
+
+Definition boolean_param : pty :=
+  PVariant [PInteger min_int64 max_int64; PFloat; PBoolean; PEnumCI [s_false; s_true; s_yes; s_no; s_y; s_n]].
+
+Definition boolean_ops : list (list (bop pty N)) := [[OParam boolean_param; OFunction]].
+
+(* floatValue == 0.0: +0.0 and -0.0 (bits 0 and 2^63) *)
+Definition float_is_zero (bits : N) : bool := (N.eqb bits 0 || N.eqb bits 9223372036854775808)%bool.
+
+(* the Go body :39-60; args[0] on an empty slice is an index fault *)
+Definition boolean_body (i : nat) (args : list pval) : outcome pval :=
+  match args with
+  | [] => OFault
+  | VInt z :: _ => OVal (VBool (negb (z =? 0)))                           (* :41 *)
+  | VFloat b :: _ => OVal (VBool (negb (float_is_zero b)))                (* :46 *)
+  | VBool b :: _ => OVal (VBool b)                                        (* :51 *)
+  | VStr s :: _ =>                                                        (* :53 default: strings.ToLower(arg.String()) *)
+      let l := lower_str s in
+      OVal (VBool (negb (str_eqb l s_false || str_eqb l s_no || str_eqb l s_n)))
+  | _ :: _ => OVal (VBool true)                                           (* any other value's String() is none of the three *)
+  end.
+
+Definition boolean_ctor : option (ctor pty pval N) :=
+  match build_function boolean_ops with
+  | inr ds => Some (ds, boolean_body)
+  | inl _ => None
+  end.
+
+(* the loader's constructor table restricted to the constructors modelled end to end *)
+Definition modelled_loader (n : str) : option (ctor pty pval N) :=
+  if str_eqb n boolean_name then boolean_ctor else None.
+
+Definition no_block (bt b : N) : bool := false.
+
+(* px.New(c, T, args...) for a fragment type T with the modelled constructors (no Init types, no Creatable, no
+   loadable type names in the fragment) *)
+Definition pnew_modelled (t : pty) (args : list pval) : outcome pval :=
+  new_instance pinst no_block pname (fun _ => None) (fun _ => None) modelled_loader (fun _ => None) (fun _ => None)
+               (RcvType t) args.
